@@ -217,3 +217,8 @@ func sortedKeys[M ~map[string]V, V any](m M) []string {
 	sort.Strings(ks)
 	return ks
 }
+
+func readFile(parts ...string) (string, error) {
+	b, err := os.ReadFile(filepath.Join(parts...))
+	return string(b), err
+}
